@@ -98,6 +98,16 @@ func propGen(prop, tier string, idx int) GenOpts {
 			o.PAs, o.PAs2, o.PGroup, o.PName = 500, 650, 450, 150
 			o.WOp = [8]int{0, 8, 9, 2, 0, 0, 0, 0}
 		}
+		if idx%4 == 2 {
+			// several requests being wired at the same time: parameter objects (often of one and the
+			// same struct type) are filled for two scopes / two consumers concurrently
+			conc(2, 3)
+			o.PParamObj = 850
+			o.WLife = [3]int{2, 5, 4}
+			o.WOp = [8]int{0, 10, 3, 6, 0, 0, 0, 0}
+			o.MaxRegs = 5
+			o.SchedUserOnly = 100
+		}
 	case "C05":
 		o.PCycle = 500
 		o.PDup = 120
@@ -151,6 +161,8 @@ func propGen(prop, tier string, idx int) GenOpts {
 			o.PVoid = 300
 			o.PCloseStorm = 300
 			o.WLife = [3]int{3, 5, 2}
+			o.PTree = 650
+			o.WOp = [8]int{0, 8, 2, 6, 6, 2, 0, 0}
 		}
 		if idx%2 == 1 {
 			// the order must hold whatever Close methods fail
@@ -213,13 +225,16 @@ func propGen(prop, tier string, idx int) GenOpts {
 	case "C18":
 		o.PBuiltinDep = 500
 		o.PParamObj = 500
+		o.PBuildCtx = 250
 		conc(1, 2)
 		o.WOp = [8]int{0, 8, 2, 6, 1, 1, 3, 0}
 		o.MaxScopeDepth = 3
 	}
 	switch prop {
 	case "C09", "C10", "C11", "C12", "C13", "C14":
-		o.PTree = 300
+		if o.PTree == 0 {
+			o.PTree = 300
+		}
 	}
 	if tier == "thorough" {
 		o.MaxRegs += 2
@@ -353,6 +368,15 @@ func (e *containerEngine) sweep(prop, tier string, idx int, tapes [nStreams][]in
 func (e *containerEngine) exec(c *Case, tape *Tape) *RunOut {
 	h := runCase(c, tape)
 	a := analyse(h)
+	if os.Getenv("VERIF_DEBUG") == "events" {
+		// replay aid: the recorded history
+		for _, op := range h.allOps {
+			fmt.Printf("  op%d task=%d %s handle=h%d seq=%d-%d err=%v insts=%v\n", op.GID, h.opTask[op.GID], op.Op, op.Handle, op.StartSeq, op.EndSeq, firstLine(op.Err), op.Insts)
+		}
+		for _, ev := range h.evts {
+			fmt.Printf("  seq=%d kind=%d task=%d op=%d inv=%d inst=%d\n", ev.Seq, ev.Kind, ev.Task, ev.Op, ev.Inv, ev.Inst)
+		}
+	}
 	out := &RunOut{Faults: map[string]int{}, Reach: map[string]int{}}
 	out.Violations = a.evaluate()
 	if raceWorker() {
